@@ -56,6 +56,7 @@ class HTTP(BaseComponent):
         self._uri = None
         self._clients = {}
         self._buffers = {}
+        self._closing = set()
 
     @property
     def version(self):
@@ -150,6 +151,9 @@ class HTTP(BaseComponent):
 
         # send HTTP response status line and headers
         res.prepare()
+        if res.close and sock.fileno() >= 0:
+            # nothing that arrives from now on is a request any more
+            self._closing.add(sock)
         self.fire(write(sock, b'%s%s' % (bytes(res), bytes(headers))))
 
         if req.method == 'HEAD':
@@ -206,6 +210,7 @@ class HTTP(BaseComponent):
             del self._clients[sock]
         if sock in self._buffers:
             del self._buffers[sock]
+        self._closing.discard(sock)
 
     @handler('read')  # noqa
     def _on_read(self, sock, data):
@@ -216,6 +221,11 @@ class HTTP(BaseComponent):
         Split the buffer by the standard HTTP delimiter CRLF and create
         Raw Event per line. Any unfinished lines of text, leave in the buffer.
         """
+        if sock in self._closing:
+            # a response that ends the connection is on its way:
+            # whatever else arrives is not a request any more
+            return None
+
         if sock in self._buffers:
             parser = self._buffers[sock]
         else:
@@ -251,6 +261,7 @@ class HTTP(BaseComponent):
                 req.server = self._server
                 res = wrappers.Response(req, encoding=self._encoding)
                 del self._buffers[sock]
+                self._closing.add(sock)
                 return self.fire(httperror(req, res, 400))
             return None
 
@@ -283,6 +294,7 @@ class HTTP(BaseComponent):
 
             if rp[0] != sp[0]:
                 # the major HTTP version differs
+                self._closing.add(sock)
                 return self.fire(httperror(req, res, 505))
 
             res.protocol = 'HTTP/{:d}.{:d}'.format(*min(rp, sp))
@@ -300,6 +312,7 @@ class HTTP(BaseComponent):
 
         if req.protocol != (1, 0) and not req.headers.get('Host'):
             del self._buffers[sock]
+            self._closing.add(sock)
             return self.fire(httperror(req, res, 400, description='No host header defined'))
 
         # Guard against unwanted request paths (SECURITY).
@@ -427,6 +440,8 @@ class HTTP(BaseComponent):
         elif len(fevent.args[2:]) == 4:
             req, res = fevent.args[2:]
         elif len(fevent.args) == 2 and isinstance(fevent.args[0], socket):
+            if fevent.args[0].fileno() >= 0:
+                self._closing.add(fevent.args[0])
             req = wrappers.Request(fevent.args[0], server=self._server)
             res = wrappers.Response(req, self._encoding, 500)
         else:
